@@ -76,6 +76,27 @@ def job_eacces(res, rng, sc, w, job):
         if sorted(r.rows()) != sorted("t/" + e.rel for e in snap):
             res.viol("fault-free run as uid %d does not list the tree" % NOBODY, {"query": q})
             return
+    # "a run in which nothing fails exits with status 0 and an empty standard error" - whatever root options are in force,
+    # and whatever the links in the tree point to (a file, a device, nothing, a directory)
+    extra_links = []
+    for nm, tgt in (("zz-lfile", files[0].name if files else "nothing"), ("zz-lnull", "/dev/null"), ("zz-ldangling", "no-such-target"), ("zz-ldir", ".")):
+        try:
+            os.symlink(tgt if nm != "zz-lfile" or not files else os.path.relpath(files[0].abs, root), os.path.join(root, nm))
+            extra_links.append(nm)
+        except OSError:
+            pass
+    for opt in rng.sample(["symlinks", "symlinks dfs", "sym maxdepth 3", "archives", "arc dfs", "gitignore", "hgignore dockerignore", "mindepth 2",
+                           "symlinks archives", "dfs maxdepth 1"], 4):
+        q = "path, size from t %s into list" % opt
+        r = runner.run([q], cwd=w, home=home, uid=NOBODY)
+        res.ev()
+        if r.verdict in ("busy", "blocked") or (r.verdict == "ok" and (r.rc != 0 or r.err or r.panicked)):
+            res.viol("fault-free run with root option `%s`: %s, status %s, stderr %r" % (opt, r.verdict, r.rc, r.err[:200]), {"query": q, "result": r.brief()})
+            return
+        if r.verdict == "ok":
+            res.cover("fault_free_options", opt)
+    for nm in extra_links:
+        os.unlink(os.path.join(root, nm))
     for blocked in choices:
         for d in blocked:
             os.chmod(d.abs, 0)
